@@ -104,8 +104,12 @@ Shr(w, k) ==
        ELSE << limb(0), limb(1), limb(2), limb(3) >>
 
 (* field bits lo..hi-1 as a small natural (hi - lo <= 30) *)
-Field(w, lo, hi) == LET s == Shr(AndW(w, MaskW(lo, hi)), lo)
-                    IN s[1] + (IF hi - lo > LB THEN LM * s[2] ELSE 0)
+Field(w, lo, hi) ==
+    IF hi - lo <= LB
+    THEN LET q == lo \div LB                       \* fast path: at most two adjacent limbs
+             r == lo % LB
+         IN ((LimbAt(w, q) \div 2^r) + ((LimbAt(w, q + 1) % 2^r) * 2^(LB - r))) % 2^(hi - lo)
+    ELSE LET s == Shr(AndW(w, MaskW(lo, hi)), lo) IN ToNat(s)
 
 PowW(k) == IF k >= WB THEN ZeroW ELSE Shl(W(1), k)       \* 2^k as a word (k < WB)
 
